@@ -41,7 +41,11 @@ RULE = ("elections with 0..7 projects (costs from tie-rich pools: zeros, equal c
         "the ballot type (Effort_Sat on all four types) is "
         "built for every ballot and queried with sat_project for every project and sat for every subset when <=5 "
         "projects (16 sampled + empty + full above), then again re-ordered / in another container type; "
-        "solver-reaching measures in separate small cases; non-trivial = distinct election in which some measure takes "
+        "solver-reaching measures in separate small cases; a HISTORY stream (2 cases in 10): an election is analysed "
+        "(optionally after another election with the same project names and budget but other costs and ballots), its "
+        "live objects are changed in place (ballot appended/removed, multiplicity changed, copy.copy then extended, "
+        "project added to a ballot, budget or a cost changed), FRESH measures are built directly or through "
+        "as_sat_profile and must equal model and formula on the final election; non-trivial = distinct election in which some measure takes "
         "a non-zero and a zero value")
 ASSUMPTIONS = [
     "hand-written Gallina model of the satisfaction modules tied to the code by differential execution only",
@@ -49,6 +53,8 @@ ASSUMPTIONS = [
     "CBC (Relative_Cost_Sat, Additive_Cardinal_Relative_Sat): every answer re-validated exactly; invalid answers and "
     "solver crashes are discarded; the theorems about these two measures assume the solver's 0/1 vector is an optimal "
     "solution of the knapsack it was given",
+    "histories: only the measures built AFTER the changes are compared (a measure built earlier keeps the normaliser "
+    "computed at construction and its per-project memo, as documented)",
     "Cost_Sqrt/Cost_Log/Additive_Cost_Sqrt/Additive_Cost_Log are outside the statement (numpy floats): only checked "
     "to be functions of the set, additive where declared additive, 0 on the empty set, and not to raise",
 ]
@@ -85,11 +91,50 @@ def budget(tier):
 
 
 def measures_of(case):
-    if case["kind"] == "pure":
+    kind = case["hmeasures"] if case["kind"] == "history" else case["kind"]
+    if kind == "pure":
         return PURE[case["btype"]]
-    if case["kind"] == "solver":
+    if kind == "solver":
         return SOLV[case["btype"]]
     return TRANSC
+
+
+# ----------------------------------------------------------------------------------------------
+# histories: an election is analysed, its live objects are changed in place, and FRESH measures are built
+# ----------------------------------------------------------------------------------------------
+def _ballot_with(btype, bl, entry):
+    """the ballot after `entry` (a rank, or [rank, score]) was added to it in place"""
+    if btype == "approval":
+        return sorted(list(bl) + [entry])
+    return list(bl) + [entry]
+
+
+def apply_ops(case):
+    """final (costs, budget, ballots) after the operations of a history case (pure data)"""
+    costs, budget_, ballots = list(case["costs"]), case["budget"], [list(b) for b in case["ballots"]]
+    for op in case.get("ops", []):
+        if op[0] == "append":
+            ballots.append(list(op[1]))
+        elif op[0] == "remove":
+            ballots.pop(op[1])
+        elif op[0] == "budget":
+            budget_ = op[1]
+        elif op[0] == "cost":
+            costs[op[1]] = op[2]
+        elif op[0] == "ballot_add":
+            ballots[op[1]] = _ballot_with(case["btype"], ballots[op[1]], op[2])
+        elif op[0] != "copy":
+            raise ValueError("unknown op %r" % (op,))
+    return costs, budget_, ballots
+
+
+def final_view(case):
+    """the election the recorded answers are about: the case itself, or the final state of a history"""
+    if case["kind"] != "history":
+        return case
+    c = dict(case)
+    c["costs"], c["budget"], c["ballots"] = apply_ops(case)
+    return c
 
 
 # ----------------------------------------------------------------------------------------------
@@ -155,10 +200,91 @@ def _gen_sets(rng, n, full_upto, sampled):
     return sets
 
 
+def _gen_ballots(rng, btype, n, nb):
+    ballots = []
+    for _ in range(nb):
+        if ballots and rng.randrange(3) == 0:
+            ballots.append(list(rng.choice(ballots)))   # repeated ballot: multiplicity >= 2 in the multiprofile
+        else:
+            ballots.append(_gen_ballot(rng, btype, n, None))
+    return ballots
+
+
+def _members(btype, bl):
+    return list(bl) if btype in ("approval", "ordinal") else [e[0] for e in bl]
+
+
+def gen_history(rng, i, btype):
+    hm = "solver" if i % 40 >= 30 else "pure"
+    n = rng.choice([1, 2, 3, 3, 4, 4, 5])
+    pool = rng.choice(POOLS)
+    if hm == "solver":
+        pool = [c for c in pool if pb.F(c) != 0]      # an all-zero knapsack row aborts CBC (excluded by the property)
+    costs = [pb.qs(rng.choice(pool)) for _ in range(n)]
+    b = _gen_budget(rng, costs, False)
+    multi = bool(rng.randrange(2))
+    ballots = _gen_ballots(rng, btype, n, rng.choice([1, 2, 2, 3, 4]))
+    case = {"kind": "history", "hmeasures": hm, "btype": btype, "costs": costs, "budget": pb.qs(b),
+            "ballots": ballots, "multi": multi, "solver": hm == "solver",
+            "via_satprofile": bool(rng.randrange(2))}
+    # an earlier election of the same process with the same project names and budget, other costs and ballots
+    if rng.randrange(3) == 0:
+        pool2 = [c for c in rng.choice(POOLS) if hm != "solver" or pb.F(c) != 0]
+        case["pre"] = {"costs": [pb.qs(rng.choice(pool2)) for _ in range(n)],
+                       "ballots": _gen_ballots(rng, btype, n, rng.choice([1, 2, 3]))}
+    ops = []
+    cur_costs, cur_ballots = list(costs), [list(x) for x in ballots]
+    for k in range(rng.choice([1, 1, 2, 2, 3])):
+        kinds = ["append", "append", "remove", "copy", "budget", "cost", "ballot_add"]
+        kind = rng.choice(kinds[:3] + ["ballot_add"]) if k == 0 else rng.choice(kinds)
+        if kind == "remove" and len(cur_ballots) < 2:
+            kind = "append"
+        if kind == "ballot_add":
+            cands = [(j, p) for j, bl in enumerate(cur_ballots) for p in range(n)
+                     if p not in _members(btype, bl)]
+            if multi or not cands:
+                kind = "append"
+        if kind == "append":
+            bl = list(rng.choice(cur_ballots)) if cur_ballots and rng.randrange(2) else _gen_ballot(rng, btype, n, None)
+            ops.append(["append", bl])
+            cur_ballots.append(bl)
+        elif kind == "remove":
+            j = rng.randrange(len(cur_ballots))
+            ops.append(["remove", j])
+            cur_ballots.pop(j)
+        elif kind == "copy":
+            ops.append(["copy"])
+        elif kind == "budget":
+            ops.append(["budget", pb.qs(_gen_budget(rng, cur_costs, False))])
+        elif kind == "cost":
+            j = rng.randrange(n)
+            cur_costs[j] = pb.qs(rng.choice(pool))
+            ops.append(["cost", j, cur_costs[j]])
+        else:
+            j, p = rng.choice(cands)
+            entry = p if btype in ("approval", "ordinal") else [p, pb.qs(rng.choice(SCORES))]
+            ops.append(["ballot_add", j, entry])
+            cur_ballots[j] = _ballot_with(btype, cur_ballots[j], entry)
+    case["ops"] = ops
+    order = list(range(n))
+    rng.shuffle(order)
+    case["order"] = order
+    case["sets"] = _gen_sets(rng, n, 5, 16)
+    case["sets2"] = []
+    for W in case["sets"]:
+        W2 = list(W)
+        rng.shuffle(W2)
+        case["sets2"].append([W2, rng.choice(["list", "tuple", "set", "frozenset"])])
+    case["sets_first"] = bool(rng.randrange(2))
+    return case
+
+
 def gen(rng, i, tier):
     r = i % 10
-    kind = "pure" if r < 6 else ("solver" if r < 9 else "transc")
+    kind = "pure" if r < 5 else ("history" if r < 7 else ("solver" if r < 9 else "transc"))
     btype = "approval" if kind == "transc" else BTYPES[(i // 10 + r) % 4]
+    if kind == "history":
+        return gen_history(rng, i, btype)
     if kind == "pure":
         n = rng.choice([0, 1, 2, 3, 3, 4, 4, 5, 5, 5, 6, 7])
     elif kind == "solver":
@@ -221,29 +347,110 @@ def _content(btype, b):
     return [[pb.rank(p), core.qj(s)] for p, s in b.items()]
 
 
-def impl(case):
+def _make_ballot(btype, projs, bl, frozen):
+    import pabutools.election as E
+
+    if btype == "approval":
+        b = E.ApprovalBallot([projs[j] for j in bl])
+    elif btype == "ordinal":
+        b = E.OrdinalBallot([projs[j] for j in bl])
+    elif btype == "cardinal":
+        b = E.CardinalBallot({projs[j]: pb.num(v) for j, v in bl})
+    else:
+        b = E.CumulativeBallot({projs[j]: pb.num(v) for j, v in bl})
+    return b.frozen() if frozen else b
+
+
+def _query_all(inst, prof, projs, case, via_satprofile=False):
+    """build a fresh measure object for every ballot of the profile and every measure, and query it"""
     import pabutools.election.satisfaction as S
 
-    inst, projs = pb.make_instance(case["costs"], case["budget"], case["order"])
-    prof = pb.make_profile(case["btype"], inst, projs, _pb_ballots(case), case["multi"])
+    conts = {"list": list, "tuple": tuple, "set": set, "frozenset": frozenset}
+    res = []
+    mids = measures_of(case)
+    if via_satprofile:
+        objs = [(mid, s) for mid in mids for s in prof.as_sat_profile(getattr(S, MEASURES[mid]))]
+    else:
+        objs = ((mid, getattr(S, MEASURES[mid])(inst, prof, b)) for b in prof for mid in mids)
+    for mid, s in objs:
+        content = _content(case["btype"], s.ballot)
+        pv = sv = None
+        if case["sets_first"]:
+            sv = [core.qj(s.sat([projs[j] for j in W])) for W in case["sets"]]
+        pv = [core.qj(s.sat_project(p)) for p in projs]
+        if sv is None:
+            sv = [core.qj(s.sat([projs[j] for j in W])) for W in case["sets"]]
+        sv2 = [core.qj(s.sat(conts[ct](projs[j] for j in W2))) for W2, ct in case["sets2"]]
+        pv2 = [core.qj(s.sat_project(p)) for p in reversed(projs)][::-1]
+        res.append({"mid": mid, "ballot": content, "pv": pv, "pv2": pv2, "sv": sv, "sv2": sv2})
+    return res
+
+
+def _apply_ops_live(case, inst, prof, projs):
+    """the operations of a history on the live objects; returns the profile object to analyse afterwards"""
+    import copy
+
+    bt, multi = case["btype"], case["multi"]
+    data = [list(b) for b in case["ballots"]]
+    for op in case["ops"]:
+        if op[0] == "append":
+            prof.append(_make_ballot(bt, projs, op[1], multi))
+            data.append(list(op[1]))
+        elif op[0] == "remove":
+            if multi:
+                key = _ballot_key(bt, data[op[1]])
+                fb = [k for k in prof if _ballot_key(bt, _data_of(bt, k)) == key][0]
+                if prof[fb] > 1:
+                    prof[fb] -= 1
+                else:
+                    del prof[fb]
+            else:
+                prof.pop(op[1])
+            data.pop(op[1])
+        elif op[0] == "copy":
+            prof = copy.copy(prof)
+        elif op[0] == "budget":
+            inst.budget_limit = pb.num(op[1])
+        elif op[0] == "cost":
+            projs[op[1]].cost = pb.num(op[2])
+        elif op[0] == "ballot_add":
+            b, e = prof[op[1]], op[2]
+            if bt == "approval":
+                b.add(projs[e])
+            elif bt == "ordinal":
+                b.append(projs[e])
+            else:
+                b[projs[e[0]]] = pb.num(e[1])
+            data[op[1]] = _ballot_with(bt, data[op[1]], e)
+    return prof
+
+
+def _data_of(btype, b):
+    c = _content(btype, b)
+    return [j for j, _ in c] if btype in ("approval", "ordinal") else c
+
+
+def impl(case):
     if case["solver"]:
         pb.install_solver_guard()
         pb.solver_reset()
-    conts = {"list": list, "tuple": tuple, "set": set, "frozenset": frozenset}
-    out = {"obs": []}
-    for b in prof:
-        content = _content(case["btype"], b)
-        for mid in measures_of(case):
-            s = getattr(S, MEASURES[mid])(inst, prof, b)
-            pv = sv = None
-            if case["sets_first"]:
-                sv = [core.qj(s.sat([projs[j] for j in W])) for W in case["sets"]]
-            pv = [core.qj(s.sat_project(p)) for p in projs]
-            if sv is None:
-                sv = [core.qj(s.sat([projs[j] for j in W])) for W in case["sets"]]
-            sv2 = [core.qj(s.sat(conts[ct](projs[j] for j in W2))) for W2, ct in case["sets2"]]
-            pv2 = [core.qj(s.sat_project(p)) for p in reversed(projs)][::-1]
-            out["obs"].append({"mid": mid, "ballot": content, "pv": pv, "pv2": pv2, "sv": sv, "sv2": sv2})
+    out = {}
+    if case["kind"] == "history":
+        if case.get("pre"):
+            c0 = dict(case)
+            c0["costs"], c0["ballots"] = case["pre"]["costs"], case["pre"]["ballots"]
+            inst0, projs0 = pb.make_instance(c0["costs"], c0["budget"], c0["order"])
+            prof0 = pb.make_profile(c0["btype"], inst0, projs0, _pb_ballots(c0), c0["multi"])
+            _query_all(inst0, prof0, projs0, c0, case["via_satprofile"])
+        inst, projs = pb.make_instance(case["costs"], case["budget"], case["order"])
+        prof = pb.make_profile(case["btype"], inst, projs, _pb_ballots(case), case["multi"])
+        _query_all(inst, prof, projs, case, case["via_satprofile"])
+        prof = _apply_ops_live(case, inst, prof, projs)
+        out["obs"] = _query_all(inst, prof, projs, case, case["via_satprofile"])
+    else:
+        inst, projs = pb.make_instance(case["costs"], case["budget"], case["order"])
+        prof = pb.make_profile(case["btype"], inst, projs, _pb_ballots(case), case["multi"])
+        out["obs"] = _query_all(inst, prof, projs, case)
     if case["solver"]:
         st = pb.solver_state()
         if st["faults"]:
@@ -284,6 +491,7 @@ def _gballot(entries):
 
 
 def coq_case(case, o):
+    case = final_view(case)
     prof = lst([pair(_gballot(bl), core.nat(m)) for bl, m in model_profile(case)])
     obs = lst(["(mkObs %s %s %s %s %s %s)" % (
         core.nat(x["mid"]), _gballot(x["ballot"]), core.qlist(x["pv"]), core.qlist(x["pv2"]),
@@ -343,6 +551,7 @@ def _spec(case, mid, entries, W):
 
 
 def _first_failure(case, o):
+    case = final_view(case)
     n = len(case["costs"])
     for x in o.get("obs", []):
         mid = x["mid"]
@@ -390,15 +599,18 @@ def describe(case, o, code):
 def nontrivial(case, o):
     if not isinstance(o, dict) or "obs" not in o:
         return None
+    case = final_view(case)
     for x in o["obs"]:
         vals = [pb.F(v) for v in x["sv"]]
         if any(v != 0 for v in vals) and any(v == 0 for v in vals[1:]):
-            return [case["kind"], case["btype"], case["multi"], case["costs"], case["budget"], case["ballots"]]
+            return [case["kind"], case["btype"], case["multi"], case["costs"], case["budget"], case["ballots"],
+                    case.get("ops"), case.get("pre")]
     return None
 
 
 def stats(cases, obs):
-    d = {"pure": 0, "solver": 0, "transc": 0, "btype": {}, "multiprofile": 0, "fractional_costs": 0,
+    d = {"pure": 0, "solver": 0, "transc": 0, "history": 0, "history_ops": {}, "history_with_earlier_election": 0,
+         "history_profile_changed": 0, "history_via_as_sat_profile": 0, "btype": {}, "multiprofile": 0, "fractional_costs": 0,
          "has_zero_cost": 0, "equal_costs": 0, "project_dearer_than_budget": 0, "nproj_hist": {},
          "nballots_hist": {}, "with_repeated_ballot": 0, "with_empty_ballot": 0, "with_full_ballot": 0,
          "fractional_scores": 0, "zero_score_in_ballot": 0, "negative_score": 0,
@@ -408,6 +620,13 @@ def stats(cases, obs):
         if not isinstance(o, dict) or "obs" not in o or o.get("discard"):
             continue
         d[c["kind"]] += 1
+        if c["kind"] == "history":
+            for op in c["ops"]:
+                d["history_ops"][op[0]] = d["history_ops"].get(op[0], 0) + 1
+            d["history_with_earlier_election"] += bool(c.get("pre"))
+            d["history_profile_changed"] += any(op[0] in ("append", "remove", "ballot_add") for op in c["ops"])
+            d["history_via_as_sat_profile"] += c["via_satprofile"]
+            c = final_view(c)
         d["btype"][c["btype"]] = d["btype"].get(c["btype"], 0) + 1
         d["multiprofile"] += c["multi"]
         cs = [pb.F(x) for x in c["costs"]]
@@ -446,16 +665,39 @@ def stats(cases, obs):
 # ----------------------------------------------------------------------------------------------
 # shrinking
 # ----------------------------------------------------------------------------------------------
+def _ren_ballot(bt, bl, j):
+    if bt in ("approval", "ordinal"):
+        return [x - (x > j) for x in bl if x != j]
+    return [[x - (x > j), sc] for x, sc in bl if x != j]
+
+
 def _drop_project(case, j):
     bt = case["btype"]
     ren = lambda W: [x - (x > j) for x in W if x != j]
     c = dict(case)
     c["costs"] = case["costs"][:j] + case["costs"][j + 1:]
     c["order"] = ren(case["order"])
-    if bt in ("approval", "ordinal"):
-        c["ballots"] = [ren(bl) for bl in case["ballots"]]
-    else:
-        c["ballots"] = [[[x - (x > j), s] for x, s in bl if x != j] for bl in case["ballots"]]
+    c["ballots"] = [_ren_ballot(bt, bl, j) for bl in case["ballots"]]
+    if case.get("pre"):
+        c["pre"] = {"costs": case["pre"]["costs"][:j] + case["pre"]["costs"][j + 1:],
+                    "ballots": [_ren_ballot(bt, bl, j) for bl in case["pre"]["ballots"]]}
+    if "ops" in case:
+        ops = []
+        for op in case["ops"]:
+            if op[0] == "append":
+                ops.append(["append", _ren_ballot(bt, op[1], j)])
+            elif op[0] == "cost":
+                if op[1] != j:
+                    ops.append(["cost", op[1] - (op[1] > j), op[2]])
+            elif op[0] == "ballot_add":
+                e = op[2]
+                pj = e if bt in ("approval", "ordinal") else e[0]
+                if pj == j:
+                    return None
+                ops.append(["ballot_add", op[1], (pj - (pj > j)) if bt in ("approval", "ordinal") else [pj - (pj > j), e[1]]])
+            else:
+                ops.append(op)
+        c["ops"] = ops
     sets, sets2 = [], []
     for W, (W2, ct) in zip(case["sets"], case["sets2"]):
         Wn = ren(W)
@@ -468,12 +710,34 @@ def _drop_project(case, j):
 
 def shrink(case):
     n = len(case["costs"])
+    hist = case["kind"] == "history"
+    if hist:
+        for j in range(len(case["ops"])):
+            c = dict(case)
+            c["ops"] = case["ops"][:j] + case["ops"][j + 1:]
+            try:
+                apply_ops(c)
+            except (IndexError, ValueError):
+                continue
+            yield c
+        if case.get("pre"):
+            c = dict(case)
+            c.pop("pre")
+            yield c
+        if case["via_satprofile"]:
+            c = dict(case)
+            c["via_satprofile"] = False
+            yield c
     for j in range(n):
         c = _drop_project(case, j)
-        if case["solver"] and c["costs"] and all(pb.F(x) == 0 for x in c["costs"]):
+        if c is None:
+            continue
+        if case["solver"] and c["costs"] and any(
+                all(pb.F(x) == 0 for x in cs) for cs in [c["costs"]] + ([c["pre"]["costs"]] if c.get("pre") else [])):
             continue
         yield c
-    if len(case["ballots"]) > 1:
+    index_ops = hist and any(op[0] in ("remove", "ballot_add") for op in case["ops"])
+    if len(case["ballots"]) > 1 and not index_ops:
         for j in range(len(case["ballots"])):
             c = dict(case)
             c["ballots"] = case["ballots"][:j] + case["ballots"][j + 1:]
@@ -484,7 +748,7 @@ def shrink(case):
             c["sets"] = [case["sets"][j]]
             c["sets2"] = [case["sets2"][j]]
             yield c
-    if case["multi"]:
+    if case["multi"] and not index_ops:
         c = dict(case)
         c["multi"] = False
         yield c
